@@ -61,3 +61,33 @@ package ecs
 //@   ensures  count: *epAlive(&s.entityPool) == old(*epAlive(&s.entityPool)) - 1
 //@   ensures  locks: s.locks.locks == old(s.locks.locks)
 //@   xpure
+
+// ---- Shrink (C15): the remaining-work answer --------------------------------------------------
+//
+// A table "has work" when Shrink would still change it: its capacity exceeds the bound, or it is
+// an empty, still active relation table. Shrink must not report "no remaining work" (false)
+// while any table has work.
+
+//@ spec func tableHasWork(s *storage, t *table) bool :=
+//@      (len(t.relationIDs) == 0 && t.cap > max(capPow2(t.len), uint32(s.config.initialCapacity)))
+//@   || (len(t.relationIDs) > 0 && (t.cap > max(capPow2(t.len), uint32(s.config.initialCapacityRelations)) || (!t.isFree && t.len == 0)))
+
+//@ pred shrinkShape(s *storage) :=
+//@   forall t int :: __trigger(s.tables[t].cap) && (0 <= t && t < len(s.tables) ==>
+//@      s.tables[t].len <= s.tables[t].cap && s.tables[t].len <= 1<<31 && uint64(s.tables[t].archetype) < uint64(len(s.archetypes)))
+
+//@ func (*archetype).FreeTable
+//@   serves C15 C04
+//@   trusted
+//@   requires table != nil
+//@   ensures  freed: table.isFree
+//@   ensures  others: forall t2 *table :: t2 != table ==> t2.isFree == old(t2.isFree)
+
+//@ func (*storage).Shrink
+//@   serves C15
+//@   requires shrinkShape(s) && cacheEntriesInv(&s.cache)
+//@   loop 1 invariant shape: shrinkShape(s) && cacheEntriesInv(&s.cache) && len(s.tables) == old(len(s.tables))
+//@   loop 1 invariant done: forall t int :: 0 <= t && t < __idx ==> !tableHasWork(s, &s.tables[t])
+//@   loop 2 invariant shape: shrinkShape(s) && len(s.tables) == old(len(s.tables)) && 0 <= tableIdx
+//@   loop 2 invariant done: forall t int :: 0 <= t && t < tableIdx && t < len(s.tables) ==> !tableHasWork(s, &s.tables[t])
+//@   ensures  no-work: !result ==> (forall t int :: 0 <= t && t < len(s.tables) ==> !tableHasWork(s, &s.tables[t]))
